@@ -448,7 +448,7 @@ func stopTestOnTypeByte(f *ssa.Function) bool {
 					continue
 				}
 				call, ok := ex.Tuple.(*ssa.Call)
-				if !ok || call.Call.StaticCallee() == nil || call.Call.StaticCallee().Name() != "ReadInt8" {
+				if !ok || call.Call.StaticCallee() == nil || core.CanonName(call.Call.StaticCallee()) != "ReadInt8" {
 					continue
 				}
 				// true edge block: returns with ok=false and nil error, no calls
@@ -821,7 +821,7 @@ func checkContainers(c *core.Ctx, l *core.Ledger, m *wireModel) {
 	// struct: the value is read with the type of the field header just read
 	if f := m.method("reader", "readStructStream"); f != nil {
 		s := normSeqs(m.RSeqs(f))
-		l.Check(strings.Contains(s, "call:ReadValue(alloc:fh.Type,") || strings.Contains(s, ".Type,$0.or.offset)"), "CONTAINER-HDR", "reader.readStructStream", c.Rel(f.Pos()),
+		l.Check(regexp.MustCompile(`call:ReadValue\(alloc:\w+\.Type,`).MatchString(s) || strings.Contains(s, ".Type,$0.or.offset)"), "CONTAINER-HDR", "reader.readStructStream", c.Rel(f.Pos()),
 			"each field value is read with the wire type of its own header", "field value is not read with the header's type: "+s)
 	}
 	checkLazyHeader(c, l, m)
@@ -880,7 +880,7 @@ func checkLazyHeader(c *core.Ctx, l *core.Ledger, m *wireModel) {
 		var skipCall ssa.Instruction
 		readerAtOK := false
 		core.WalkInlined(f, inlineHelpers("skipListItems", "skipMapItems", "skipStruct", "skipMap", "skipList"), func(in ssa.Instruction, via []*ssa.Call) {
-			if call, ok := in.(*ssa.Call); ok && call.Call.StaticCallee() != nil && strings.HasPrefix(call.Call.StaticCallee().Name(), "skip") && len(via) == 0 {
+			if call, ok := in.(*ssa.Call); ok && call.Call.StaticCallee() != nil && strings.HasPrefix(core.CanonName(call.Call.StaticCallee()), "skip") && len(via) == 0 {
 				skipCall = in
 			}
 			st, ok := in.(*ssa.Store)
